@@ -129,7 +129,7 @@ class Leaf:
 class Node:
     is_leaf = False
 
-    def __init__(self, name, kids, akind='', ct=None, N=None, rfun=None, npf=None, cxx=None, extra='', clv=None):
+    def __init__(self, name, kids, akind='', ct=None, N=None, rfun=None, npf=None, cxx=None, extra='', clv=None, mextra=None):
         self.name = name; self.kids = kids; self.akind = akind
         self.ct = ct            # compile-time value(s) (also the maxima for 'cl')
         self.N = N              # static length of an rt argument
@@ -138,12 +138,14 @@ class Node:
         self.cxx = cxx          # (list of kid expressions, run-time argument expression) -> C++ expression
         self.extra = extra      # extra token text (keepdims ...)
         self.clv = clv          # run-time values of a clipped argument
+        self.mextra = mextra    # `extra` as the Lean driver needs it (more explicit than the readable text), when different
 
     def has_rarg(self):
         return self.rfun is not None
 
-    def token(self):
-        """RPN token read by lean/NmVerif/Driver/C11.lean: name.argkind.fields (lists comma separated)"""
+    def token(self, model=False):
+        """RPN token read by lean/NmVerif/Driver/C11.lean: name.argkind.fields (lists comma separated); model=False: the
+        same token as part of the readable program text (kept stable: it is written into the generated TUs)"""
         t = self.name
         k = self.akind
         if k == 'ct':
@@ -158,8 +160,9 @@ class Node:
             t += '.rt.%d' % self.N
         elif k and k != 'pat':
             t += '.' + k
-        if self.extra:
-            t += '.' + self.extra
+        extra = self.mextra if (model and self.mextra is not None) else self.extra
+        if extra:
+            t += '.' + extra
         return t
 
     def text(self):
@@ -459,7 +462,7 @@ def op_multiply_scalar(k, v):
 
 
 
-# view kinds without a Lean transfer function: static knowledge vs run-time objects and NumPy only ------------------------
+# third group (transfer functions in lean/NmVerif/StaticGen.lean): generating / selecting / pooling / windowing views ----------
 
 def op_eye(k, v):
     # no array operand: the leaf only supplies run-time numbers (its instance shape); kinds of N, M: constant / run-time
@@ -526,7 +529,7 @@ def _swv(a, w, ax):
 def op_sliding_window(k, v):
     r = len(v)
     full = tuple([1] * (r - 1) + [2])
-    return [Node('sliding_window', [k], 'cts', ct=2, extra='axc', npf=lambda a, _, r=r: _swv(a[0], 2, r - 1),
+    return [Node('sliding_window', [k], 'cts', ct=2, extra='axc', mextra='axc%d' % (r - 1), npf=lambda a, _, r=r: _swv(a[0], 2, r - 1),
                  cxx=lambda e, _, r=r: 'view::sliding_window(%s, 2_ct, %d_ct)' % (e[0], r - 1)),
             Node('sliding_window', [k], 'ct', ct=full, extra='axn', npf=lambda a, _, full=full: _swv(a[0], full, None),
                  cxx=lambda e, _, full=full: 'view::sliding_window(%s, %s)' % (e[0], ct_tuple(full))),
@@ -559,7 +562,9 @@ MODELLED_BINARY = [op_add, op_concatenate]
 EXTRA_UNARY = [op_repeat, op_pad, op_cumsum, op_roll, op_flip, op_moveaxis, op_take, op_slice, op_atleast_3d, op_multiply_scalar]
 EXTRA_BINARY = [op_where, op_matmul]
 MODELLED = {'transpose', 'reshape', 'flatten', 'broadcast_to', 'tile', 'expand_dims', 'squeeze', 'sum', 'negative', 'add', 'concatenate',
-            'repeat', 'pad', 'cumsum', 'roll', 'flip', 'moveaxis', 'take', 'slice', 'atleast_3d', 'mulscalar', 'where', 'matmul', 'bcast3'}
+            'repeat', 'pad', 'cumsum', 'roll', 'flip', 'moveaxis', 'take', 'slice', 'atleast_3d', 'mulscalar', 'where', 'matmul', 'bcast3',
+            # third group (transfer functions in StaticGen.lean)
+            'eye', 'tri', 'tril', 'triu', 'max_pool2d', 'avg_pool2d', 'resize', 'sliding_window', 'compress', 'outer_add'}
 
 # header of each view function; a TU includes only what its programs use (compile time)
 HEADER_OF = {'transpose': 'transpose', 'reshape': 'reshape', 'flatten': 'flatten', 'broadcast_to': 'broadcast_to', 'tile': 'tile',
@@ -609,7 +614,7 @@ class Program:
                 toks.append(n.token()); return
             for k in n.kids:
                 rec(k)
-            toks.append(n.token())
+            toks.append(n.token(model=True))
         rec(self.root)
         return ';'.join(toks)
 
